@@ -360,6 +360,12 @@ theorem takeView_invL {σ σ' : St} {c : Nat} (hl : InvL σ) (h : σ.takeView c 
     exact ⟨by rw [h1.2.1, h2.2.1], by rw [h1.2.2.1, h2.2.2.1]⟩
   · intro f _; dsimp only; rw [refFiles_apply]
 
+theorem loaderRef_invL {σ σ' : St} (hl : InvL σ) (h : σ.loaderRef = some σ') : InvL σ' := by
+  obtain ⟨_, hσ⟩ := loaderRef_spec h
+  apply frame_invL hl <;> try (rw [hσ])
+  · intro t _; exact ⟨rfl, rfl⟩
+  · intro f _; dsimp only; rw [refFiles_apply]
+
 theorem openCursors_invL {σ σ' : St} {i : Nat} (hl : InvL σ) (h : σ.openCursors i = some σ') : InvL σ' := by
   obtain ⟨v, _, _, hσ⟩ := openCursors_spec h
   apply frame_invL hl <;> try (rw [hσ])
@@ -658,6 +664,7 @@ theorem step_invL {σ σ' : St} (a : Act) (hr : InvR σ) (hl : InvL σ) (h : σ.
   | publish o u => exact publish_invL hr hl h
   | dropSnapshot => exact dropSnapshot_invL hr hl h
   | takeView c => exact takeView_invL hl h
+  | loaderRef => exact loaderRef_invL hl h
   | openCursors i => exact openCursors_invL hl h
   | readView i =>
     simp only [St.step] at h
